@@ -41,7 +41,7 @@ def parseCand (s : String) : Option Cand :=
     let flags := idf.toList.dropWhile Char.isDigit
     let id ← (String.ofList digits).toNat?
     let qs ← (listOf qs "+").mapM parseQ
-    some { id := id, qs := qs, hdr := flags.foldl (fun a c => a * 256 + c.toNat) 0 }
+    some { id := id, qs := qs, hdr := flags.foldl (fun a c => a * 256 + c.toNat) 0, tc := flags.contains 't' }
   | _ => none
 
 def parseExtra (s : String) : Option Extra :=
@@ -134,6 +134,19 @@ def step (st : State) (w : List String) : State × String :=
       let (r, used) := exchange (proto == "udp") qid q cs
       (st, s!"{xresStr r} used={used}")
     | _, _, _ => (st, "bad-op")
+  | ["cli", "run", qid, q, ucs, tcs, skipq] =>
+    match qid.toNat?, (if q == "-" then some none else (parseQ q).map some), (listOf ucs ";").mapM parseCand,
+          (listOf tcs ";").mapM parseCand, parseBool skipq with
+    | some qid, some q, some us, some ts, some sk =>
+      (st, match clientExchange qid q sk us ts with
+        | CliRes.err e => xresStr e
+        | CliRes.udp i => s!"ok u{i}"
+        | CliRes.tcp j => s!"ok t{j}")
+    | _, _, _, _, _ => (st, "bad-op")
+  | ["scache", "run", zones, qname, qtype] =>
+    let cached := (listOf zones ",").map fun z => lower (str z)
+    let (found, level) := searchCache cached (str qname) (qtype == "43")
+    (st, s!"zone={unstr (lower (nameText found))} level={level}")
   | ["doh", "run", qid, q, cand, skipq] =>
     let c : Option Cand := if cand == "h" || cand == "c" then some { bad := true } else parseCand cand
     match qid.toNat?, (if q == "-" then some none else (parseQ q).map some), c, parseBool skipq with
